@@ -332,6 +332,100 @@ theorem nocancel_timeout_leaves_task (cfg : Cfg) (hc : cfg.cancel = false) (ops 
     exact ⟨(pollC cfg (run cfg ops).now x).1, by simp [recordAfter_poll, hx], by rw [hp]; simpa using hrun⟩
   · exact ⟨(dropC cfg (run cfg ops).now x).1, by simp [recordAfter_drop, hx], by rw [dropC_waiting_detached cfg _ x hw hc]; exact hrun⟩
 
+/-! ## readiness of the wrapped service: settled before `call()`, never part of the call -/
+
+/-- **Readiness is propagated, not absorbed** (`poll_ready` = the wrapped service's `poll_ready`, its error wrapped in
+`Inner`): a caller that finds the wrapped service `Pending` or failed is told so (`notready` / the readiness error) and
+that is all — no call is made: no record, no inner call (the serial counter stands still), nothing for a later
+poll to act on, the clock and every other caller untouched. -/
+theorem readiness_propagates (cfg : Cfg) (ops : List Op) (c : Nat) (e : Bool)
+    (hnew : lookup (run cfg ops).callers c = none) :
+    newEvents cfg (run cfg ops) (.refused c e) = [Ev.result c (if e then .inner 9 0 else .notReady)] ∧
+    recordAfter cfg (run cfg ops) (.refused c e) c = none ∧
+    (stepS cfg (run cfg ops) (.refused c e)).callers = (run cfg ops).callers ∧
+    (stepS cfg (run cfg ops) (.refused c e)).serial = (run cfg ops).serial ∧
+    (stepS cfg (run cfg ops) (.refused c e)).now = (run cfg ops).now ∧
+    newEvents cfg (stepS cfg (run cfg ops) (.refused c e)) (.poll c) = [] := by
+  obtain ⟨h1, h2, h3, h4⟩ := stepS_refused cfg (run cfg ops) c e
+  refine ⟨?_, ?_, h1, h3, h4, ?_⟩
+  · rw [newEvents_refused cfg _ c e hnew]; cases e <;> rfl
+  · simp [recordAfter, h1, hnew]
+  · simp [newEvents, stepS, applyC, hnew]
+
+/-- **Refused arrivals change no call**: the clock, the serial numbers and every caller's record — phase, first
+poll, deadline, fate of the inner call, time-stamped history — after any operation sequence are those of the same
+sequence with the refused arrivals left out.  (So every theorem of this file about a caller's record holds
+whatever refusals are interleaved, and a retry under a fresh id is an ordinary call.) -/
+theorem refusals_change_no_call (cfg : Cfg) (ops : List Op) :
+    (run cfg ops).now = (run cfg (ops.filter Op.isCall)).now ∧
+    (run cfg ops).serial = (run cfg (ops.filter Op.isCall)).serial ∧
+    (run cfg ops).callers = (run cfg (ops.filter Op.isCall)).callers ∧
+    (run cfg ops).kOf = (run cfg (ops.filter Op.isCall)).kOf := by
+  have h := foldl_core_filter cfg ops init init rfl
+  simp only [core, Prod.mk.injEq] at h
+  exact h
+
+/-- What an arrival meets, for **any** readiness behaviour `rd` of the wrapped service (any script of
+`Ready` / `Pending` / `Err` answers, any recovery time after a call) and any requested operations: the service
+sees the arrival as a call exactly when the wrapped service answers `Ready(Ok)` at that instant, and as a refusal
+(`Pending`: while it recovers from an earlier call, or by its script; `Err`) otherwise; every other operation
+reaches the service as it is. -/
+theorem arrival_meets_readiness (cfg : Cfg) (rd : Rd) (ops : List Op) (c : Nat) (tmo : Option Tmo) (sc : Step)
+    (hnew : lookup (runR cfg rd ops).2.callers c = none) :
+    (effOp (runR cfg rd ops).1 (runR cfg rd ops).2 (.arrive c tmo sc)).2 =
+      (match ((runR cfg rd ops).1.answer (runR cfg rd ops).2.now).1 with
+       | .ready => .arrive c tmo sc
+       | .pending => .refused c false
+       | .err => .refused c true) ∧
+    ((runR cfg rd ops).1.isBusy (runR cfg rd ops).2.now = true →
+      ((runR cfg rd ops).1.answer (runR cfg rd ops).2.now).1 = .pending) ∧
+    ((runR cfg rd ops).1.isBusy (runR cfg rd ops).2.now = false →
+      ((runR cfg rd ops).1.answer (runR cfg rd ops).2.now).1 = (runR cfg rd ops).1.script.headD .ready) ∧
+    (∀ c', (stepR cfg (runR cfg rd ops) (.poll c')).2 = stepS cfg (runR cfg rd ops).2 (.poll c')) := by
+  refine ⟨effOp_arrive _ _ c tmo sc hnew, ?_, ?_, fun _ => rfl⟩
+  · intro hb; simp [Rd.answer, hb]
+  · intro hb
+    simp only [Rd.answer, hb]
+    cases (runR cfg rd ops).1.script <;> simp
+
+/-- **A call resolves no later than its timeout after it starts — whatever the readiness history.**  For every
+configuration, every readiness behaviour `rd` of the wrapped service (not ready for a stretch, never ready, failing)
+and every requested operation sequence (arrivals that were refused and retried included): the state is that of an
+ordinary run (of the operations the service saw), so for a caller `c` that was given a call future
+* its first poll — and nothing earlier: not `call()`, not an earlier refused attempt — calls the wrapped service
+  and arms `deadline = now + timeout`;
+* polled at or after that deadline it resolves in that very poll;
+* polled at or after `min(done, deadline)` it resolves in that very poll (the inner result at the instant it is
+  available); before, the poll is silent;
+* and every result it ever got came at an instant `≥ min(done, deadline)` counted from that first poll.
+Readiness cannot add to any of this because it is settled before `call()` (`readiness_propagates`). -/
+theorem resolves_by_deadline_whatever_readiness (cfg : Cfg) (rd : Rd) (ops : List Op) (c : Nat) (x : Caller)
+    (hx : lookup (runR cfg rd ops).2.callers c = some x) :
+    (runR cfg rd ops).2 = run cfg (effOps cfg rd ops) ∧
+    (x.outer = .fresh →
+      ∃ x', recordAfter cfg (runR cfg rd ops).2 (.poll c) c = some x' ∧
+        x'.start = (runR cfg rd ops).2.now ∧ x'.deadline = (runR cfg rd ops).2.now + x.tmo ∧
+        Ev.innerCall c (runR cfg rd ops).2.serial ∈ newEvents cfg (runR cfg rd ops).2 (.poll c)) ∧
+    (x.outer = .waiting → x.due (runR cfg rd ops).2.now →
+      (∃ x', recordAfter cfg (runR cfg rd ops).2 (.poll c) c = some x' ∧ x'.outer = .gone) ∧
+      ∃ pre r, newEvents cfg (runR cfg rd ops).2 (.poll c) = pre ++ [Ev.result c r]) ∧
+    (x.outer = .waiting → x.awake (runR cfg rd ops).2.now →
+      (∃ x', recordAfter cfg (runR cfg rd ops).2 (.poll c) c = some x' ∧ x'.outer = .gone) ∧
+      ∃ pre r, newEvents cfg (runR cfg rd ops).2 (.poll c) = pre ++ [Ev.result c r]) ∧
+    (x.outer = .waiting → ¬ x.awake (runR cfg rd ops).2.now →
+      newEvents cfg (runR cfg rd ops).2 (.poll c) = []) ∧
+    (∀ t r, (t, CEv.result r) ∈ x.hist → x.awake t) := by
+  have he := runR_eq_run cfg rd ops
+  rw [he] at hx ⊢
+  refine ⟨rfl, ?_, ?_, ?_, ?_, ?_⟩
+  · intro hf
+    obtain ⟨x', h1, h2, h3, _, h5, _⟩ := deadline_from_first_poll cfg _ c x hx hf
+    exact ⟨x', h1, h2, h3, h5⟩
+  · intro hw hd; exact resolves_by_deadline cfg _ c x hx hw hd
+  · intro hw ha; exact resolves_from_wake cfg _ c x hx hw ha
+  · intro hw hn; exact (pending_before_wake cfg _ c x hx hw hn).2
+  · intro t r hr; exact (never_resolves_early cfg _ c x t r hx hr).1
+
 /-! ## independence -/
 
 /-- **No shared state**: what the service does to caller `c` — its record (phase, timeout,
@@ -468,6 +562,28 @@ example :
       [.innerCall 1 0, .innerCall 2 1, .innerDone 2 1 .ok, .result 2 (.ok 1)] ∧
     build [.cancel false, .dur .max] = { timeout := .max, cancel := false, dyn := false } ∧
     build [.fn .max, .cancel false, .dur 7] = { timeout := 7, cancel := false, dyn := false } := by
+  decide
+
+/-- back-pressure of the wrapped service (timeout 100 ms, cancelling): (1) the wrapped service recovers for 80 ms
+after every call: caller 2, arriving at t=10 while it recovers from caller 1's call, is told `notready` and nothing
+else happens for it; the retry (caller 3) is accepted at t=80, first polled at t=85 over an inner call that never
+completes, and times out at 185 = 85 + 100 — not later, and not counted from t=10 or t=80; (2) a script
+`Pending, Err, Ready`: `notready`, the readiness error, then an ordinary call — the same in non-cancelling mode. -/
+example :
+    let rd : Rd := { recMs := 80, recAll := true }
+    let ops := [Op.arrive 1 none ⟨50, .ok⟩, .poll 1, .adv 10, .arrive 2 none ⟨50, .ok⟩, .poll 2, .adv 40, .poll 1,
+                .adv 30, .arrive 3 none ⟨0, .never⟩, .adv 5, .poll 3, .adv 99, .poll 3, .adv 1, .poll 3]
+    let rd2 : Rd := { script := [.pending, .err, .ready] }
+    let ops2 := [Op.arrive 1 none ⟨5, .ok⟩, .arrive 2 none ⟨5, .ok⟩, .arrive 3 none ⟨5, .err 1⟩, .poll 3, .adv 5, .poll 3]
+    (runR { timeout := 100, cancel := true, dyn := false } rd ops).2.log =
+      [.innerCall 1 0, .result 2 .notReady, .innerDone 1 0 .ok, .result 1 (.ok 0),
+       .innerCall 3 1, .innerDrop 3 1, .result 3 .timeout] ∧
+    (runR { timeout := 100, cancel := true, dyn := false } rd ops).2.now = 185 ∧
+    (runR { timeout := 100, cancel := true, dyn := false } rd ops).1.busy = some 165 ∧
+    effOps { timeout := 100, cancel := true, dyn := false } rd2 ops2 =
+      [.refused 1 false, .refused 2 true, .arrive 3 none ⟨5, .err 1⟩, .poll 3, .adv 5, .poll 3] ∧
+    (runR { timeout := 100, cancel := false, dyn := false } rd2 ops2).2.log =
+      [.result 1 .notReady, .result 2 (.inner 9 0), .innerCall 3 0, .innerDone 3 0 (.err 1), .result 3 (.inner 1 0)] := by
   decide
 
 end TR.Props.C06
